@@ -35,7 +35,7 @@ def gen_targeted(run, n):
             e = ("op", "or", A, ("block", [mark("b_ran"), lit(bv)]))
             exp = {"b": bv}
         elif k == "and":
-            bv = rng.choice([True, False])
+            bv = rng.choice([True, False, None])       # `true && null` is false (try_and), not an error
             e = ("op", "err", ("op", "and", A, ("block", [mark("b_ran"), lit(bv)])), lit(js("ERR")))
             exp = {"b": bv}
         else:
@@ -69,7 +69,8 @@ def oracle(case, out):
         if falsy(a):
             return None if (r is False and not has("b_ran")) else "a && b with a null/false must yield false without evaluating b"
         if a is True:
-            return None if (r == exp["b"] and has("b_ran")) else "true && b must yield b"
+            want = False if exp["b"] is None else exp["b"]
+            return None if (r == want and has("b_ran")) else "true && b must evaluate b and yield it (null counts as false); got %r" % (r,)
         return None if (r == {"b": "ERR".encode().hex()} and has("b_ran")) else "non-boolean && b must evaluate b then fail"
     # structural equality oracle for the predicate: VRL == on these pool values is plain equality,
     # except that integer 0 / float are not mixed here
